@@ -38,6 +38,7 @@ func isAnalysisNodeType(t types.Type) bool {
 func mutAnRule(w *World, r *Result, only func(rel string) bool) int {
 	n := 0
 	shiftSkipRule(w, r, only)
+	sepIndexRule(w, r, only)
 	for _, fi := range sortedFuncs(w) {
 		rel := w.Rel(fi.Obj.Pkg())
 		if fi.Decl.Body == nil || !strings.HasPrefix(rel, "generator") || (only != nil && !only(rel)) {
@@ -295,6 +296,114 @@ func shiftSkipRule(w *World, r *Result, only func(rel string) bool) int {
 				}
 			}
 			visit(loop.Body.List)
+			return true
+		})
+	}
+	return n
+}
+
+// sepIndexRule (SEP-INDEX): inside a range loop that skips elements (`if <filter> { continue }` with a filter that
+// does not look at the index), a later test of the loop index against 0 — or against len(...)-1 — does not mean
+// "first (last) element emitted": when the element at that index is skipped the test never (or wrongly) fires. When
+// what the test guards only writes literals (a separator, an opening or closing bracket), the generated text gets a
+// leading, missing or doubled separator for every input whose first (last) element is filtered out.
+func sepIndexRule(w *World, r *Result, only func(rel string) bool) int {
+	n := 0
+	for _, fi := range sortedFuncs(w) {
+		rel := w.Rel(fi.Obj.Pkg())
+		if fi.Decl.Body == nil || (only != nil && !only(rel)) {
+			continue
+		}
+		info := fi.Pkg.TypesInfo
+		ast.Inspect(fi.Decl.Body, func(x ast.Node) bool {
+			loop, ok := x.(*ast.RangeStmt)
+			if !ok || loop.Key == nil || identOf(loop.Key) == nil || identOf(loop.Key).Name == "_" {
+				return true
+			}
+			if _, isMap := info.TypeOf(loop.X).Underlying().(*types.Map); isMap {
+				return true
+			}
+			idx := objOf(info, identOf(loop.Key))
+			var val types.Object
+			if loop.Value != nil && identOf(loop.Value) != nil {
+				val = objOf(info, identOf(loop.Value))
+			}
+			filtered := ""
+			var filterCond ast.Expr
+			for _, st := range loop.Body.List {
+				ifs, ok := st.(*ast.IfStmt)
+				if !ok {
+					continue
+				}
+				// a filter: `if cond { continue }`, cond does not mention the index
+				if len(ifs.Body.List) == 1 && ifs.Else == nil && !usesObj(info, ifs.Cond, idx) {
+					if br, ok := ifs.Body.List[0].(*ast.BranchStmt); ok && br.Tok == token.CONTINUE {
+						if filtered == "" {
+							filtered = es(ifs.Cond)
+							filterCond = ifs.Cond
+						}
+						continue
+					}
+				}
+				if filtered == "" || ifs.Init != nil {
+					continue
+				}
+				be, ok := ast.Unparen(ifs.Cond).(*ast.BinaryExpr)
+				if !ok || !(be.Op == token.NEQ || be.Op == token.GTR || be.Op == token.EQL || be.Op == token.LSS) {
+					continue
+				}
+				id := identOf(be.X)
+				if id == nil || objOf(info, id) != idx {
+					continue
+				}
+				edge := false
+				if v, ok := constInt(info, be.Y); ok && v == 0 {
+					edge = true
+				}
+				if sub, ok := ast.Unparen(be.Y).(*ast.BinaryExpr); ok && sub.Op == token.SUB {
+					if c, ok := ast.Unparen(sub.X).(*ast.CallExpr); ok && isBuiltinCall(info, c, "len") && es(c.Args[0]) == es(loop.X) {
+						edge = true
+					}
+				}
+				if !edge {
+					continue
+				}
+				// what the test guards writes literals only (nothing about the element)
+				body := ifs.Body
+				if be.Op == token.EQL && ifs.Else != nil {
+					if eb, ok := ifs.Else.(*ast.BlockStmt); ok {
+						body = eb
+					}
+				}
+				literalOnly := len(body.List) > 0
+				for _, bs := range body.List {
+					if val != nil && usesObj(info, bs, val) {
+						literalOnly = false
+					}
+					hasLit := false
+					ast.Inspect(bs, func(y ast.Node) bool {
+						if bl, ok := y.(*ast.BasicLit); ok && bl.Kind == token.STRING {
+							hasLit = true
+						}
+						if _, ok := y.(*ast.BranchStmt); ok {
+							literalOnly = false
+						}
+						if _, ok := y.(*ast.ReturnStmt); ok {
+							literalOnly = false
+						}
+						return true
+					})
+					if !hasLit {
+						literalOnly = false
+					}
+				}
+				if !literalOnly {
+					continue
+				}
+				n++
+				r.bad("SEP-INDEX", fi.Name, "if "+normLocals(info, ifs.Cond)+" { <literal> } after `if "+normLocals(info, filterCond)+" { continue }`", w.Pos(ifs.Pos()),
+					"the loop skips elements (`"+filtered+"`), so the index of "+es(loop.X)+" is not the number of elements emitted so far: when the element at the tested index is skipped, the literal (separator or bracket) is written in the wrong place — a leading or missing separator in the generated text")
+			}
 			return true
 		})
 	}
